@@ -300,20 +300,19 @@ func c19Boost(c *Ctx, sx *symx.Ctx) {
 			if !isC || m < 0 {
 				continue
 			}
+			// floating point: only the positive form establishes the bound — !(sim < m)
+			// also holds for NaN, which would then be multiplied into the score
 			switch op {
 			case token.GEQ, token.GTR:
 				cutG[[2]int{iff.Block().Index, 0}] = true
 				guard = fmt.Sprintf("sim %s %v", op, m)
-			case token.LSS, token.LEQ:
-				cutG[[2]int{iff.Block().Index, 1}] = true
-				guard = fmt.Sprintf("!(sim %s %v)", op, m)
 			}
 		}
 		if len(cutG) == 0 || ssau.ReachableAvoidingEdges(fn, st.Block(), cutG) {
 			guard = ""
 		}
 		_ = cd
-		r.Check(guard != "", "O-2", key, c.P.Pos(st.Pos()), fmt.Sprintf("Score *= 1 + %v*sim under %s: factor >= 1", alpha, guard), "the score update is not guarded by sim >= a non-negative threshold: a negative similarity would lower the score")
+		r.Check(guard != "", "O-2", key, c.P.Pos(st.Pos()), fmt.Sprintf("Score *= 1 + %v*sim under %s: factor >= 1", alpha, guard), "the score update is not reachable only through the true side of sim >= (or >) a non-negative constant: a negative similarity — or a NaN, for which !(sim < min) holds too — would be multiplied into the score")
 		// every path from the write to a return passes a Score-descending sort
 		var sorts []*ssa.Call
 		ssau.ForEachInstr(fn, false, func(in ssa.Instruction) {
